@@ -1,5 +1,8 @@
 use std::cell::UnsafeCell;
 use std::ptr;
+#[cfg(may_verif)]
+use crate::verif::atomic::{AtomicPtr, Ordering};
+#[cfg(not(may_verif))]
 use std::sync::atomic::{AtomicPtr, Ordering};
 
 use crossbeam_utils::{Backoff, CachePadded};
